@@ -381,6 +381,24 @@ for path in sorted(glob.glob(os.path.join(data, "*")), key=lambda p: (os.path.ge
                 except AttributeError:
                     fails.append(((name, a), "declared attribute does not exist: " + name + "." + a)); continue
                 if v is None: fails.append(((name, a, os.path.basename(path)), "guaranteed attribute is None: " + name + "." + a))
+# the same corpus files with every format given explicitly (a file name does not restrict which reader the user
+# may ask for): whenever a reader accepts a file, its guaranteed attributes must be set
+for path in sorted(glob.glob(os.path.join(data, "*")), key=lambda p: (os.path.getsize(p) if os.path.isfile(p) else 0))[:maxfiles]:
+    if not os.path.isfile(path) or os.path.getsize(path) > min(maxsize // 3, 400_000): continue
+    try:
+        auto = _select_format_module(path, "load_one")
+    except FileFormatError:
+        auto = None
+    for name, mod in sorted(FORMAT_MODULES.items()):
+        if not hasattr(mod, "load_one") or mod is auto: continue
+        cases += 1
+        try:
+            o = load_one(path, fmt=name)
+        except Exception:
+            continue
+        loaded += 1
+        for a in mod.load_one.guaranteed:
+            if getattr(o, a, None) is None: fails.append(((name, a, os.path.basename(path)), "guaranteed attribute is None: " + name + "." + a))
 # generated minimal files: a single atom / a bond-less pair without optional data, dumped and reloaded
 import numpy as np, tempfile
 from iodata import IOData, dump_one, dump_many
